@@ -1154,3 +1154,49 @@ def sk_flag_fresh(run, R="SK"):
                 bad.append("%s = %s" % (st["place"]["p"][-1]["name"], d[:70]))
     run.check(n >= 2 and not bad, R, R + "|match-all|flags-fresh", f.loc(), "every match gets the static analysis' own answer for itself under the current symbol context (%d store(s))" % n,
               "match_all stores static information that is not the analysis' answer for this match at this place (%s): an instruction whose text was seen before inherits the flags computed under another label, where the same local name is another symbol" % ("; ".join(bad) or "stores not found"))
+
+
+def line_scan_rules(run, R="MATCH"):
+    """where an instruction line ends: (1) advance_until_linebreak leaves its scanning loop only when the text is over or when the
+    brace nesting counter is zero - a line break (or a closing brace) inside `{ }` does not end the line, so an asm-block line may
+    spread a substitution over several lines; (2) it looks at tokens only - no search of the raw text for `;`, a newline or a
+    brace, which would find them inside block comments and strings; (3) the instruction parser steps over everything ignorable
+    (blanks and comments) before it takes the line, so the instruction text never begins with a comment"""
+    from mir import natural_loop
+    g = run.anchor(R, "Walker::<'src>::advance_until_linebreak")
+    if g is not None:
+        nt = [bi for bi, t in g.calls() if (t.get("resolved") or t.get("callee") or "").endswith("::next_token")]
+        loop = set()
+        for h in sorted(g.reachable()):
+            lp = natural_loop(g, h)
+            if lp and any(b in lp for b in nt) and len(lp) > len(loop):
+                loop = lp
+        bad = []
+        for b in sorted(loop):
+            for e in g.succs(b):
+                if e in loop:
+                    continue
+                tt = g.blocks[b]["term"]
+                ok = False
+                if tt["k"] == "switch" and op_local(tt["discr"]) is not None:
+                    o = g.origin_local(op_local(tt["discr"]))
+                    if o and o[0] == "binop" and o[1]["op"] == "Eq" and (const_int(o[1]["r"]) == 0 or const_int(o[1]["l"]) == 0):
+                        ok = True
+                    if o and o[0] == "call" and (o[1].get("resolved") or o[1].get("callee") or "").endswith("::is_over"):
+                        ok = True
+                if tt["k"] in ("call", "drop", "assert") and e != tt.get("target"):
+                    ok = True       # unwind edges
+                if not ok:
+                    bad.append(g.loc(tt["span"]))
+        run.check(bool(loop) and not bad, R, R + "|line-end|outside-braces", g.loc(), "advance_until_linebreak stops only at the end of the text or with the brace nesting at zero",
+                  "advance_until_linebreak leaves its loop without testing the brace nesting (%s): a line break inside `{ }` ends the instruction line, so an asm-block line whose substitution braces span several lines is cut" % (", ".join(bad) or "scanning loop not found"))
+        raw = [g.loc(t["span"]) for bi, t in g.calls() if re.search(r"<impl str>::(find|rfind|contains|split|split_once|lines|trim_end_matches|char_indices|chars)$", t.get("callee") or "")]
+        run.check(not raw, R, R + "|line-end|by-tokens", g.loc(), "advance_until_linebreak looks at tokens only",
+                  "advance_until_linebreak searches the raw text of the line (%s): a `;` or a newline inside a block comment or a string cuts the instruction (`ld ;* dst *; 1, 5` gives `no match`)" % ", ".join(raw))
+    ip = run.anchor(R, "asm::parser::instruction::parse")
+    if ip is not None:
+        sk = [bi for bi, t in ip.calls() if (t.get("resolved") or t.get("callee") or "").endswith("::skip_ignorable")]
+        al = [bi for bi, t in ip.calls() if (t.get("resolved") or t.get("callee") or "").endswith("::advance_until_linebreak")]
+        ok = bool(al) and all(any(ip.dominates(s_, a_) for s_ in sk) for a_ in al)
+        run.check(ok, R, R + "|line-start|ignorable-skipped", ip.loc(), "the instruction parser steps over blanks and comments before it takes the line",
+                  "asm::parser::instruction::parse takes the instruction line without having stepped over everything ignorable: a line that starts with a block comment keeps it at the front of the instruction text, where the prefix index finds no mnemonic (`;* load *; ld 1, 5` matches only with --debug-no-optimize-matcher)")
